@@ -4,7 +4,10 @@ import Nstd.Json.Model
   Line protocol of the Json area (same as harness/json.cpp):
     parse <hex>   ->  ok <dump> | err <line> <col>
     strip <hex>   ->  <hex>
-    tostr <dump>  ->  <hex of toString>
+    tostr <dump>  ->  <hex of toString>     (tostr only: u<dec> / U<dec> unsigned kinds print like integers, <V,...> an
+                                            Array<Variant> prints like a list)
+    tostr D<hex>  ->  dbl                   (a double is opaque in the model: it carries its text; "%f" of a finite value
+                                            is digits '.' six digits, the only thing the harness observes)
     rt <dump>     ->  ok <dump of parse (toString v)> <v' == v> | err <line> <col>
   dump: n | t | f | d | i<dec> | l<dec> | s<hex> | [V,...] | {<hex>:V,...}
 -/
@@ -48,9 +51,21 @@ def readDec (cs : List Char) (lo hi : Int) : Option (Int × List Char) :=
     let i : Int := if neg then -(n : Int) else n
     if i < lo || i > hi then none else some (i, r)
 
+def readUDec (cs : List Char) (hi : Nat) : Option (Int × List Char) :=
+  let d := cs.takeWhile Char.isDigit
+  let r := cs.dropWhile Char.isDigit
+  if d.isEmpty || d.length > 20 || (d.length > 1 && d.head? == some '0') then none
+  else
+    let n : Nat := d.foldl (fun a c => a * 10 + (c.toNat - 48)) 0
+    if n > hi then none else some ((n : Int), r)
+
 mutual
-partial def readVal (cs : List Char) : Option (Val × List Char) :=
+partial def readVal (ext : Bool) (cs : List Char) : Option (Val × List Char) :=
   match cs with
+  | 'u' :: r => if ext then (readUDec r 4294967295).map (fun (i, r) => (.int64 i, r)) else none
+  | 'U' :: r => if ext then (readUDec r 18446744073709551615).map (fun (i, r) => (.int64 i, r)) else none
+  | '<' :: '>' :: r => if ext then some (.list [], r) else none
+  | '<' :: r => if ext then readItems ext '>' r [] else none
   | 'n' :: r => some (.null, r)
   | 't' :: r => some (.bool true, r)
   | 'f' :: r => some (.bool false, r)
@@ -58,27 +73,29 @@ partial def readVal (cs : List Char) : Option (Val × List Char) :=
   | 'l' :: r => (readDec r (-9223372036854775808) 9223372036854775807).map (fun (i, r) => (.int64 i, r))
   | 's' :: r => (readHexStr r).map (fun (s, r) => (.str s, r))
   | '[' :: ']' :: r => some (.list [], r)
-  | '[' :: r => readItems r []
+  | '[' :: r => readItems ext ']' r []
   | '{' :: '}' :: r => some (.map [], r)
-  | '{' :: r => readEntries r []
+  | '{' :: r => readEntries ext r []
   | _ => none
-partial def readItems (cs : List Char) (acc : List Val) : Option (Val × List Char) :=
-  match readVal cs with
-  | some (v, ',' :: r) => readItems r (acc ++ [v])
-  | some (v, ']' :: r) => some (.list (acc ++ [v]), r)
+partial def readItems (ext : Bool) (close : Char) (cs : List Char) (acc : List Val) : Option (Val × List Char) :=
+  match readVal ext cs with
+  | some (v, c :: r) =>
+    if c == ',' then readItems ext close r (acc ++ [v])
+    else if c == close then some (.list (acc ++ [v]), r)
+    else none
   | _ => none
-partial def readEntries (cs : List Char) (acc : List (List Byte × Val)) : Option (Val × List Char) :=
+partial def readEntries (ext : Bool) (cs : List Char) (acc : List (List Byte × Val)) : Option (Val × List Char) :=
   match readHexStr cs with
   | some (k, ':' :: r) =>
-    match readVal r with
-    | some (v, ',' :: r) => readEntries r (mapAppend acc k v)
+    match readVal ext r with
+    | some (v, ',' :: r) => readEntries ext r (mapAppend acc k v)
     | some (v, '}' :: r) => some (.map (mapAppend acc k v), r)
     | _ => none
   | _ => none
 end
 
-def readDump (s : String) : Option Val :=
-  match readVal s.toList with
+def readDump (s : String) (ext : Bool := false) : Option Val :=
+  match readVal ext s.toList with
   | some (v, []) => some v
   | _ => none
 
@@ -115,9 +132,15 @@ def stepLine (_ : Unit) (ws : List String) : Unit × String :=
            | .nofuel => "NOFUEL")
     | none => ((), "bad-op")
   | ["tostr", d] =>
-    match readDump d with
-    | some v => ((), hexOf (toString v))
-    | none => ((), "bad-op")
+    match d.toList with
+    | 'D' :: h =>
+      match readHexStr h with
+      | some (_, []) => ((), "dbl")
+      | _ => ((), "bad-op")
+    | _ =>
+      match readDump d true with
+      | some v => ((), hexOf (toString v))
+      | none => ((), "bad-op")
   | ["rt", d] =>
     match readDump d with
     | some v => ((), showParse (cbuf (toString v)) (some v))
